@@ -1,8 +1,12 @@
-import NeoFS.Lemmas.Balance
-/-! # C01 — Balance: supply equals the sum of balances and no balance is ever negative
+import NeoFS.Generated.Consts
+import NeoFS.Lemmas.BalanceEvents
+/-! # C01 — Balance: supply equals the sum of balances, no balance is ever negative, supply moves
+only on mint/burn, failed calls are inert, notifications come in pairs and replay all balances
 
-Property theorems only; helper lemmas are in `NeoFS/Lemmas/Balance.lean`, the model in
-`NeoFS/Model/Balance.lean`. -/
+Property theorems only; helper lemmas are in `NeoFS/Lemmas/Balance.lean`, `BalanceMore.lean`,
+`BalanceEvents.lean`, the model in `NeoFS/Model/Balance.lean`.
+`WFOp` is the property's quantifier: Alphabet-only methods get 20-byte addresses, lock targets are
+fresh. Theorems that do not mention `WFOp`/`SInv` hold for every state and every argument. -/
 namespace NeoFS.Props.C01
 open NeoFS NeoFS.Balance
 
@@ -15,5 +19,92 @@ theorem sheet_step (s : State) (env : Env) (op : Op) (h : SInv s) (hw : WFOp s o
 theorem sheet_all_histories (hist : List (Env × Op)) (hw : WFHist init hist) :
     (run init hist).supply = total (run init hist).accts ∧ Nonneg (run init hist).accts :=
   C01_reachable hist hw
+
+example : WFHist init demo := by
+  simp only [demo, WFHist, WFOp]; decide
+example : (run init demo).supply = 960 ∧ total (run init demo).accts = 960 := by decide
+
+/-- `totalSupply` moves by `+amount` on a HALTed mint, by `-amount` on a HALTed burn and not at all
+in every other case (any state, any caller, any arguments; `supplyDelta` is that table). -/
+theorem supply_delta (s : State) (env : Env) (op : Op) :
+    (invoke s env op).1.supply = s.supply + supplyDelta op (halted (invoke s env op)) :=
+  supply_invoke s env op
+
+/-- Reading of `supply_delta` for everything that is not a mint or a burn. -/
+theorem supply_unchanged_unless_mint_burn (s : State) (env : Env) (op : Op)
+    (hm : ∀ t amt d, op ≠ .mint t amt d) (hb : ∀ f amt d, op ≠ .burn f amt d) :
+    (invoke s env op).1.supply = s.supply := by
+  rw [supply_invoke]
+  cases op with
+  | mint t amt d => exact absurd rfl (hm t amt d)
+  | burn f amt d => exact absurd rfl (hb f amt d)
+  | _ => simp [supplyDelta]
+
+example : supplyDelta (.mint A 1000 []) (halted (invoke init alpha (.mint A 1000 []))) = 1000 := by decide
+example : supplyDelta (.burn A 400 []) (halted (invoke (run init demo) alpha (.burn A 400 []))) = -400 := by
+  decide
+example : supplyDelta (.mint A 1000 []) (halted (invoke init asA (.mint A 1000 []))) = 0 := by decide
+example : supplyDelta (.newEpoch 7) (halted (invoke (run init demo) alpha (.newEpoch 7))) = 0 := by decide
+
+/-- A FAULTed invocation changes nothing. -/
+theorem fault_changes_nothing (s : State) (env : Env) (op : Op) (h : (invoke s env op).2 = none) :
+    (invoke s env op).1 = s := fault_inert s env op h
+
+/-- A public transfer that answers `false` changes nothing and notifies nothing. -/
+theorem refusal_changes_nothing (s : State) (env : Env) (f t : Hash) (amt : Int) (ev : List Event)
+    (h : (invoke s env (.transfer f t amt)).2 = some (some false, ev)) :
+    (invoke s env (.transfer f t amt)).1 = s ∧ ev = [] := refusal_inert s env f t amt ev h
+
+example : (invoke (run init demo) asA (.burn A 1 [])).2 = none := by decide
+example : (invoke (run init demo) asA (.transfer B A 1)).2 = some (some false, []) := by decide
+
+/-- The notifications of a HALTed invocation are adjacent pairs `Transfer f t a`, `TransferX f t a d`
+with equal payload; for `lock` the pairs are followed by exactly one `Lock` notification
+(`EventsShape`, `pairedThen`). -/
+theorem events_paired (s : State) (env : Env) (op : Op) (r : Option Bool) (ev : List Event)
+    (h : (invoke s env op).2 = some (r, ev)) : EventsShape op ev := paired_invoke s env op r ev h
+
+/-- For every method but the tick the notification list of a HALTed, not refused invocation is
+exactly one pair carrying the call's own from/to/amount (`opEvents`), plus `Lock` for `lock`. -/
+theorem events_exact (s : State) (env : Env) (op : Op) (r : Option Bool) (ev : List Event)
+    (h : (invoke s env op).2 = some (r, ev)) (hne : ∀ e, op ≠ .newEpoch e) (hr : r ≠ some false) :
+    ev = opEvents op :=
+  events_exact_step _ _ _ _ _ _ (invoke_some_inv _ _ _ _ _ h) hne hr
+
+example : (invoke (run init demo) alpha (.lock [9] A L 100 5)).2 =
+    some (none, [.transfer A L 100, .transferX A L 100 [3, 9], .lock [9] A L 100 5]) := by decide
+example : EventsShape (.lock [9] A L 100 5)
+    [.transfer A L 100, .transferX A L 100 [3, 9], .lock [9] A L 100 5] := by decide
+example : ¬ Paired [.transfer A L 100, .transferX A L 99 []] := by decide
+example : ¬ Paired [.transfer A L 100] := by decide
+
+/-- Replaying the `Transfer` notifications of a HALTed invocation over the old balances gives the
+new balance of every account. Needs the quantifier `WFOp` only for the freshness of lock targets;
+no invariant on `s` is needed. -/
+theorem events_replay (s : State) (env : Env) (op : Op) (r : Option Bool) (ev : List Event)
+    (hw : WFOp s op) (h : (invoke s env op).2 = some (r, ev)) (k : Hash) :
+    (getAcc (invoke s env op).1.accts k).bal = applyEvents (fun k => (getAcc s.accts k).bal) ev k :=
+  congrFun (replay_step _ _ _ _ _ _ (lockFresh_of_wf s op hw) (invoke_some_inv _ _ _ _ _ h)) k
+
+/-- The concatenated notification stream of a whole history (FAULTed invocations contribute
+nothing) replays from the all-zero balance function to the final balance of every account. -/
+theorem events_replay_histories (hist : List (Env × Op)) (hw : WFHist init hist) (k : Hash) :
+    (getAcc (run init hist).accts k).bal = applyEvents (fun _ => 0) (histEvents init hist) k :=
+  congrFun (replay_hist hist init (lockFreshHist_of_wf hist init hw)) k
+
+example : histEvents init demo =
+    [.transfer [] A 1000, .transferX [] A 1000 [1], .transfer A B 300, .transferX A B 300 [],
+     .transfer A L 100, .transferX A L 100 [3], .lock [] A L 100 2,
+     .transfer L [] 40, .transferX L [] 40 [2], .transfer L A 60, .transferX L A 60 [4, 2]] := by decide
+example : applyEvents (fun _ => 0) (histEvents init demo) A = 660 := by decide
+example : applyEvents (fun _ => 0) (histEvents init demo) L = 0 := by decide
+
+/-- Bridge to the sources: the literals used by the model (`1 :: d`, `2 :: d`, `3 :: d`, `4 :: encInt e`,
+20-byte addresses) are the constants of `common/transfer.go` and `contracts/balance/contract.go` as
+regenerated from the working tree on every run (`NeoFS.Generated`). A changed constant breaks this lemma. -/
+theorem model_constants_match_sources :
+    NeoFS.Generated.common_mintPrefix = [1] ∧ NeoFS.Generated.common_burnPrefix = [2] ∧
+    NeoFS.Generated.common_lockPrefix = [3] ∧ NeoFS.Generated.common_unlockPrefix = [4] ∧
+    NeoFS.Generated.balance_accPrefix = 97 ∧ NeoFS.Generated.balance_circulation = "MainnetGAS" := by decide
 
 end NeoFS.Props.C01
